@@ -27,6 +27,7 @@ TECHNIQUE += '; systematic compositions (every wrapper node around every leaf ki
 LEVEL_TEXT += ' Added clauses: parentheses are kept wherever the grouped expression is not an atom of the grammar language; parameter values re-read with their type; `name(params) < Base` header order; None-valued regex directives print as an empty regex; railroad rows are measured in display width.'
 TECHNIQUE += '; models built by the g2e ANTLR actions (interpreted, composed as antlr.tatsu composes them) print to text the reader reads back as the tree that was built'
 LEVEL_TEXT += ' Added clause: ANTLR-translated models keep operator/operand binding when printed (name=~x, ~~x, ~( a | b )).'
+LEVEL_TEXT += ' Added clauses (rounds 9-11): railroad rendering completes with one display width per drawing for every node kind and header form of the domain; constant-like and path-like string parameters are quoted where the grammar needs it; multi-line leaves under indenting wrappers; the stored order of overriding rules (known finding).'
 TECHNIQUE += '; every join kind over multi-line operands'
 TECHNIQUE += "; blanks and tabs in patterns and regex directives; printers interpreted with the repository's trim()"
 TECHNIQUE += '; definition order of overriding rules (R7, GrammarSemantics.rule interpreted on a scripted sequence of definitions); multi-line leaves under every indenting wrapper; string parameters spelled like the constants of the grammar language; the railroad walker and railmath interpreted on stand-in models: completes, one display width per drawing (C13.R6)'
